@@ -29,7 +29,7 @@ from typing import Any
 VERIF = Path(__file__).resolve().parent.parent
 REPO = Path(os.environ.get("VERIF_REPO", "/repo"))
 EVIDENCE = VERIF / "evidence"
-REPLAYS = VERIF / "replays"
+REPLAYS = Path(os.environ.get("VERIF_REPLAYS") or VERIF / "replays")
 KNOWN_FINDINGS = VERIF / "known_findings.json"
 
 EXIT_OK, EXIT_VIOLATION, EXIT_HARNESS = 0, 1, 3
